@@ -20,7 +20,7 @@ CLAIMED = {
  "C10": dict(text=_T % "C10" + "byte-level Add/Lsh/Rsh/Mul/Div/Nand/Ltu equal the documented width rules for all byte strings and widths <= 255",
              note=_N + "math/big (Mul, Div, SetBytes, FillBytes) modelled as Nat.", technique="Lean 4 proof (carry/shift invariants by induction on byte lists) + correspondence"),
  "C11": dict(text=_T % "C11" + "one theorem per gadget: reference evaluation of the gadget tree equals the documented function for all widths and operand values "
-             "(F34: MaskBits with w=1 and cnt>=256 excluded by hypothesis, counterexample proved, recorded as known finding)",
+             "(MaskBits for every bit count since the F34 repair)",
              note=_N, technique="Lean 4 proof (Nat.testBit / two's-complement arithmetic) + structural correspondence of constructors"),
  "C12": dict(text=_T % "C12" + "SetWidth yields trunc/zero-extension of the value at the new width; PurgeWidthGadgets preserves width and value incl. MemLoad addresses",
              note=_N, technique="Lean 4 proof by structural induction (context lemma for prune) + correspondence"),
